@@ -56,7 +56,16 @@ func newPool(params []string) (*ekpool.OnDemandBlockTaskPool, error) {
 	opts := []option.Option[ekpool.OnDemandBlockTaskPool]{
 		ekpool.WithCoreGo(int32(iv[1])), ekpool.WithMaxGo(int32(iv[2])),
 		ekpool.WithQueueBacklogRate(float64(iv[4]) / float64(iv[5])),
-		ekpool.WithMaxIdleTime(time.Hour), // the fake timer never fires by itself; FIRE comes from the model
+	}
+	// params[12]: idle time in ns handed to WithMaxIdleTime; "0" = the option is NOT given (defaultMaxIdleTime applies);
+	// absent = one hour.  The fake timer never fires by itself (FIRE comes from the model), but the duration each
+	// NewTimer is given is observed through op "timerdur".
+	idle := int64(time.Hour)
+	if len(params) > 12 {
+		idle, _ = strconv.ParseInt(params[12], 10, 64)
+	}
+	if idle != 0 {
+		opts = append(opts, ekpool.WithMaxIdleTime(time.Duration(idle)))
 	}
 	return ekpool.NewOnDemandBlockTaskPool(iv[0], iv[3], opts...)
 }
@@ -133,6 +142,14 @@ func (i *inst) Call(ctx context.Context, tid int, op string, args []string) stri
 			}
 		}
 		return i.p.VerifSnapshot() + " done=" + d
+	case "timerdur":
+		// harness observation: the duration worker <tid>'s most recent time.NewTimer was given
+		wt, _ := strconv.Atoi(args[0])
+		d, ok := verifhook.LastTimerDuration(wt)
+		if !ok {
+			return "none"
+		}
+		return strconv.FormatInt(int64(d), 10)
 	case "settle":
 		// wait until exactly n workers of this pool are physically parked in their select
 		n, _ := strconv.Atoi(args[0])
